@@ -5,18 +5,27 @@ use serde_json::{Value, json};
 
 use crate::pool::{Pool, Resp};
 
+pub mod c07;
+pub mod c08;
 pub mod c19;
+pub mod c20;
 
 pub fn worker(prop: &str, case: &Value) -> Value {
     match prop {
+        "C07" => c07::worker(case),
+        "C08" => c08::worker(case),
         "C19" => c19::worker(case),
+        "C20" => c20::worker(case),
         _ => json!({"machinery": format!("no worker for {}", prop)}),
     }
 }
 
 pub fn drive(prop: &str, tier: &str) -> i32 {
     match prop {
+        "C07" => c07::drive(tier),
+        "C08" => c08::drive(tier),
         "C19" => c19::drive(tier),
+        "C20" => c20::drive(tier),
         _ => {
             eprintln!("MACHINERY: no driver for property {}", prop);
             2
@@ -182,6 +191,96 @@ impl Run {
             evidence.set("exhaustive", false);
         }
         self.reporter.finish(evidence)
+    }
+}
+
+/// Runs a group of texts in chunks (`{"texts": [...], ..extra}` per case). A chunk whose
+/// worker dies or hangs is bisected: its texts are re-run one per case, so that the
+/// crash is attributed to a single text. Returns the group's report for the evidence.
+pub fn run_text_group(
+    run: &mut Run,
+    pool: &Pool,
+    name: &str,
+    texts: &[String],
+    chunk: usize,
+    extra: &Value,
+) -> Value {
+    let total = texts.len();
+    if run.over_cap() {
+        run.capped = true;
+        return json!({"group": name, "generated": total, "evaluated": 0, "completed": false});
+    }
+    let make = |c: &[String]| -> Value {
+        let mut v = extra.clone();
+        if !v.is_object() {
+            v = json!({});
+        }
+        v["texts"] = json!(c);
+        v
+    };
+    let before = run.evaluations;
+    let cap = run.wall_cap_s;
+    let t0 = run.reporter.start;
+    let prev = run.crash_is_violation;
+    run.crash_is_violation = false;
+    let machinery_before = run.machinery.len();
+    let crashes_before = (run.crashes, run.hangs);
+    let mut dispatched: Vec<Value> = vec![];
+    let mut answered: std::collections::HashSet<u64> = Default::default();
+    {
+        let mut chunks = texts.chunks(chunk.max(1));
+        let it = std::iter::from_fn(|| {
+            if t0.elapsed().as_secs_f64() > cap {
+                return None;
+            }
+            chunks.next().map(make)
+        })
+        .inspect(|c| dispatched.push(c.clone()));
+        run.run_pool(pool, it, |_, idx, _, _| {
+            answered.insert(idx);
+        });
+    }
+    run.machinery.truncate(machinery_before);
+    run.crashes = crashes_before.0;
+    run.hangs = crashes_before.1;
+    run.crash_is_violation = prev;
+    let mut retry: Vec<String> = vec![];
+    let mut bisected = 0;
+    for (i, c) in dispatched.iter().enumerate() {
+        if !answered.contains(&(i as u64)) {
+            bisected += 1;
+            for t in c["texts"].as_array().unwrap() {
+                retry.push(t.as_str().unwrap().to_string());
+            }
+        }
+    }
+    let dispatched_texts: usize = dispatched
+        .iter()
+        .map(|c| c["texts"].as_array().map(|a| a.len()).unwrap_or(0))
+        .sum();
+    if dispatched_texts < total {
+        run.capped = true;
+    }
+    if !retry.is_empty() {
+        let singles: Vec<Value> = retry.iter().map(|t| make(std::slice::from_ref(t))).collect();
+        run.run_pool(pool, singles.into_iter(), |_, _, _, _| {});
+    }
+    json!({
+        "group": name,
+        "generated": total,
+        "dispatched": dispatched_texts,
+        "completed": dispatched_texts >= total,
+        "evaluations": run.evaluations - before,
+        "chunks_bisected_after_a_crash": bisected,
+    })
+}
+
+pub fn truncate_text(s: &str, n: usize) -> String {
+    if s.chars().count() <= n {
+        s.to_string()
+    } else {
+        let t: String = s.chars().take(n).collect();
+        format!("{}…", t)
     }
 }
 
